@@ -135,6 +135,9 @@ class DepSet(boolean.AndRestriction, caching=False):
                 elif "|" in k:
                     raise DepsetParseError(dep_str, k, attr=attr)
                 elif allow_src_uri_file_renames:
+                    if k == "->":
+                        # an arrow has to follow the uri it renames
+                        raise DepsetParseError(dep_str, k, attr=attr)
                     try:
                         k2 = next(words)
                     except StopIteration:
@@ -145,7 +148,14 @@ class DepSet(boolean.AndRestriction, caching=False):
                             words.appendleft((k2,))
                         else:
                             k3 = next(words)
-                            # file rename
+                            # file rename; the new name is a plain file name, never syntax
+                            if (
+                                k3 in ("(", ")", "->")
+                                or k3[-1] == "?"
+                                or k3 in operators
+                                or "|" in k3
+                            ):
+                                raise DepsetParseError(dep_str, k3, attr=attr)
                             depsets[-1].append(element_func(k, k3))
                 else:
                     # node/element
